@@ -29,6 +29,8 @@ where
 
     fn poll_next(mut self: Pin<&mut Self>, cx: &mut Context<'_>) -> Poll<Option<Self::Item>> {
         self.waker.register(cx.waker());
+        #[cfg(crux_verif)]
+        crate::verif::point("cs_settle");
 
         // run_until_settled is idempotent
         self.deref_mut().run_until_settled();
